@@ -70,6 +70,12 @@ func init() {
 		e.P("def wspOnPlayLadder : List (String × String × String) := %s", ladder(e, FuncDecl(wsp, "Session", "onPlay"), "wspOnPlayLadder"))
 		e.P("def wspOnDescribeLadder : List (String × String × String) := %s", ladder(e, FuncDecl(wsp, "Session", "onDescribe"), "wspOnDescribeLadder"))
 
+		// onPack: what happens to an interleaved packet sent by the client
+		e.P("/-- rtsp onPack: the guard in front of `s.stream.WritePacket` (condition => what its block ends with), \"\" if there is none -/")
+		e.P("def onPackGuard : String := %s", LeanStr(onPackGuard(e, FuncDecl(sess, "Session", "onPack"))))
+		e.P("/-- rtsp onPack: the calls it makes, in order -/")
+		e.P("def onPackCalls : List String := %s", LeanStrList(callsOfFunc(FuncDecl(sess, "Session", "onPack"))))
+
 		// newResponse: the header fields every response gets; who else touches them; where the id is assigned
 		e.P("/-- rtsp newResponse: the `resp.Header.Set(k, v)` statements of its body, in order -/")
 		e.P("def rtspNewResponseSets : List (String × String) := %s", headerSets(e, FuncDecl(sess, "Session", "newResponse"), "rtspNewResponseSets"))
@@ -507,6 +513,33 @@ func ladder(e *Emitter, fd *ast.FuncDecl, what string) string {
 	}
 	visit(fd.Body.List)
 	return "[" + strings.Join(rows, ", ") + "]"
+}
+
+// onPackGuard: `if <cond> { …; return nil }` as the first statement of onPack
+func onPackGuard(e *Emitter, fd *ast.FuncDecl) string {
+	if fd == nil {
+		e.Unknown("onPackGuard")
+		return ""
+	}
+	if len(fd.Body.List) == 0 {
+		return ""
+	}
+	ifs, ok := fd.Body.List[0].(*ast.IfStmt)
+	if !ok || ifs.Else != nil || len(ifs.Body.List) == 0 {
+		return ""
+	}
+	ret, ok := ifs.Body.List[len(ifs.Body.List)-1].(*ast.ReturnStmt)
+	if !ok {
+		return ""
+	}
+	return strings.Join(strings.Fields(Src(ifs.Cond)), " ") + " => " + strings.Join(strings.Fields(Src(ret)), " ")
+}
+
+func callsOfFunc(fd *ast.FuncDecl) []string {
+	if fd == nil {
+		return nil
+	}
+	return callsIn(fd.Body.List)
 }
 
 // headerSets: the top-level `resp.Header.Set(k, v)` statements of newResponse
